@@ -78,8 +78,8 @@ package main
 
 //@ func RedactMongoLog
 //@   safety C07
-//@   assigns GoMaps, Arr:Str, Arr:Val, Mem:OMap, decUseNumber
-//@   allocs Arr:Int, Arr:Slice, Mem:Str
+//@   assigns GoMaps, Arr:Val, Mem:OMap, decUseNumber
+//@   allocs Arr:Int, Arr:Slice, Mem:Str, Arr:Str
 //@   ensures object-or-error: (result0 == nil) == (result1 != nil)
 
 //@ func MarshalOrdered
@@ -100,7 +100,8 @@ package main
 //@ func processMongoLogStream
 //@   props C08
 //@   safety C07
-//@   assigns GoMaps, wfailOn, scanErr, outN, stderrN, decUseNumber, Arr:Str, Arr:Val, Mem:OMap
+//@   assigns GoMaps, wfailOn, scanErr, outN, stderrN, decUseNumber, Arr:Val, Mem:OMap
+//@   allocs Arr:Str
 //@   requires: !wfailOn[outWriter] && !scanErr
 //@   loop 1 invariant io-ok {C08}: !wfailOn[outWriter] && !scanErr
 //@   loop 1 invariant out-grows: outN >= old(outN) && wfailOn == store(old(wfailOn), outWriter, wfailOn[outWriter])
@@ -113,7 +114,8 @@ package main
 //@ func ProcessMongoLogFile
 //@   props C08
 //@   safety C07
-//@   assigns GoMaps, wfailOn, scanErr, openFail, outN, stderrN, envOps, decUseNumber, Arr:Str, Arr:Val, Mem:OMap
+//@   assigns GoMaps, wfailOn, scanErr, openFail, outN, stderrN, envOps, decUseNumber, Arr:Val, Mem:OMap
+//@   allocs Arr:Str
 //@   requires: !wfailOn[outWriter] && !scanErr && !openFail && fileReader != nil
 //@   requires key-in-use-is-the-persisted-one {C11}: implies(shouldEncrypt && encryptionKey != nil, havePersisted && persistedKey == mkbytes(elems(encryptionKey), off(encryptionKey), len(encryptionKey)))
 //@   ensures no-silent-failure {C08}: implies(result == nil, !wfailOn[outWriter] && !scanErr && !openFail)
@@ -124,7 +126,8 @@ package main
 //@ func ProcessMongoLogFileFromReader
 //@   props C08
 //@   safety C07
-//@   assigns GoMaps, wfailOn, scanErr, outN, stderrN, envOps, decUseNumber, Arr:Str, Arr:Val, Mem:OMap
+//@   assigns GoMaps, wfailOn, scanErr, outN, stderrN, envOps, decUseNumber, Arr:Val, Mem:OMap
+//@   allocs Arr:Str
 //@   requires: !wfailOn[outWriter] && !scanErr
 //@   requires key-in-use-is-the-persisted-one {C11}: implies(shouldEncrypt && encryptionKey != nil, havePersisted && persistedKey == mkbytes(elems(encryptionKey), off(encryptionKey), len(encryptionKey)))
 //@   sets envOps := envOps + 1
@@ -331,11 +334,14 @@ package main
 //@   safety C07
 //@   assigns Arr:Str
 //@   ensures length: len(result) <= len(slice) && len(result) >= len(slice) - 1 && len(result) >= 0
+//@   ensures key-path-frame: unchangedBelowExcept("Arr:Str", base(slice))
+//@   ensures same-backing-array: base(result) == base(slice)
 
 //@ func RemoveElementsBeforeIncluding
 //@   safety C07
 //@   assigns nothing
 //@   ensures length: len(result) == 0 || len(result) < len(slice)
+//@   ensures sub-slice-or-fresh: base(result) == base(slice) || (base(result) > old(heapTop) && base(result) <= heapTop)
 
 //@ func traverseMapPath
 //@   safety C07
@@ -344,6 +350,7 @@ package main
 //@   loop 1 invariant table-walk: tableVal(current)
 //@   ensures table-value: implies(result1, tableVal(result0) && result0 != nil)
 //@   ensures nil-when-absent: implies(!result1, result0 == nil)
+//@   ensures key-path-frame: unchangedBelowExcept("Arr:Str", base(path))
 
 //@ func getOp
 //@   safety C07
@@ -351,6 +358,7 @@ package main
 //@   requires nonempty-path: len(keyPath) >= 1
 //@   ensures table-value: implies(result1, tableVal(result0))
 //@   ensures nil-when-absent: implies(!result1, result0 == nil)
+//@   ensures key-path-frame: unchangedBelowExcept("Arr:Str", base(keyPath))
 
 //@ func reMatchesAnyKeyInPath
 //@   safety C07
@@ -369,6 +377,7 @@ package main
 //@   assigns Arr:Str, GoMaps
 //@   allocs Arr:Int
 //@   requires nonempty-path: len(keyPath) >= 1
+//@   ensures key-path-frame: unchangedBelowExcept("Arr:Str", base(keyPath))
 
 //@ func parseValue
 //@   safety C07
@@ -392,12 +401,15 @@ package main
 //@   assigns Arr:Str, Arr:Val, GoMaps
 //@   allocs Arr:Int, Mem:OMap
 //@   ensures same-slice: result == arr
+//@   ensures key-path-frame: unchangedBelowExcept("Arr:Str", base(keyPath))
+//@   loop 1 invariant key-path-frame: unchangedBelowExcept("Arr:Str", base(keyPath))
 
 //@ func redactArrayValues
 //@   safety C07
 //@   assigns Arr:Str, Arr:Val, GoMaps
 //@   allocs Arr:Int, Mem:OMap
 //@   ensures same-slice: result == arr
+//@   ensures key-path-frame: unchangedBelowExcept("Arr:Str", base(keyPath))
 
 //@ func redactQueryValues
 //@   safety C07
@@ -406,6 +418,8 @@ package main
 //@   requires map: obj != nil
 //@   loop 1 invariant frame: unchangedBelow("Mem:OMap") && newObj > old(heapTop) && newObj <= heapTop && !isTable(newObj) && (el == nil || elMap(el) == obj)
 //@   ensures fresh-map: result > old(heapTop) && result <= heapTop && !isTable(result)
+//@   ensures key-path-frame: unchangedBelowExcept("Arr:Str", base(keyPath))
+//@   loop 1 invariant key-path-frame: unchangedBelowExcept("Arr:Str", base(keyPath))
 
 //@ func augmentOp
 //@   safety C07
@@ -425,12 +439,20 @@ package main
 //@   loop 4 invariant frame: unchangedBelow("Mem:OMap")
 //@   loop 5 invariant frame: unchangedBelow("Mem:OMap") && newSubMap > old(heapTop) && newSubMap <= heapTop && !isTable(newSubMap)
 //@   loop 6 invariant frame: unchangedBelow("Mem:OMap")
+//@   ensures key-path-frame: unchangedBelowExcept("Arr:Str", base(keyPath))
+//@   loop 1 invariant key-path-frame: unchangedBelowExcept("Arr:Str", base(keyPath))
+//@   loop 2 invariant key-path-frame: unchangedBelowExcept("Arr:Str", base(keyPath))
+//@   loop 3 invariant key-path-frame: unchangedBelowExcept("Arr:Str", base(keyPath))
+//@   loop 4 invariant key-path-frame: unchangedBelowExcept("Arr:Str", base(keyPath))
+//@   loop 5 invariant key-path-frame: unchangedBelowExcept("Arr:Str", base(keyPath))
+//@   loop 6 invariant key-path-frame: unchangedBelowExcept("Arr:Str", base(keyPath))
 
 //@ func redactCommand
 //@   safety C07
-//@   assigns Arr:Str, Arr:Val, GoMaps, Mem:OMap
-//@   allocs Arr:Int
+//@   assigns Arr:Val, GoMaps, Mem:OMap
+//@   allocs Arr:Int, Arr:Str
 //@   requires not-a-table: !isTable(cmd)
+//@   loop 1 invariant key-path-frame: unchangedBelow("Arr:Str")
 
 //@ func redactNamespace
 //@   safety C07
@@ -440,10 +462,11 @@ package main
 
 //@ func redactFieldNamesFromPlanSummary
 //@   safety C07
-//@   assigns GoMaps, Arr:Str
+//@   assigns GoMaps
 //@   allocs Arr:Int, Arr:Str, Arr:Val, Arr:Slice
 
 //@ func ParsePlanSummary
 //@   safety C07
-//@   assigns GoMaps, Arr:Str
+//@   assigns GoMaps
 //@   allocs Arr:Str, Arr:Slice
+//@   loop 4 invariant frame: unchangedBelow("Arr:Str") && (base(fields) == 0 || base(fields) > old(heapTop))
